@@ -28,6 +28,7 @@ def vals_for(names, rng):
     for n in names:
         env[n] = rng.choice([1.0, 2.0, 0.5, 3.0, 1.5, 4.0])
     env['k'] = 3.0
+    env.setdefault('t', 5.0)
     return env
 
 
@@ -92,6 +93,18 @@ def gen_case(rng):
                 lines.insert(r.randint(0, len(lines)), {'kind': 'eq', 'text': eqline(nm, val), 'trail': r.random() < 0.4})
                 expected.append(['endo', nm, val])
                 case_variants.append(nm)
+    lag_lookalikes = []
+    if r.random() < 0.4:
+        # well-formed simultaneous equations that merely LOOK like lag spellings: bracketed negative literals,
+        # function arguments written 't - 1' / 'k - 1'
+        x0 = spec['simul'][0]['name']
+        for nm, rhs in (('zl_neg', '%s*(-1)' % x0), ('zl_sub', '%s - ( -1 )' % x0), ('zl_abs', 'abs(-1) + %s' % x0),
+                        ('zl_ramp', 'abs(t - 1)'), ('zl_step', 'max(k - 1, 0.0) + min(t -1, 2.0)')):
+            if nm not in used_names and r.random() < 0.7:
+                # written out as is: the spacing is the point (compressed, 't - 1' would BE the lag spelling '(t-1)')
+                lines.insert(r.randint(0, len(lines)), {'kind': 'eq', 'text': '%s = %s' % (nm, rhs), 'trail': r.random() < 0.4})
+                expected.append(['endo', nm, rhs])
+                lag_lookalikes.append(nm)
     for n, v in spec['ics'].items():
         lines.insert(r.randint(0, len(lines)), {'kind': 'eq', 'text': eqline(n + '(0)', G.fmt_num(v)),
                                                 'trail': r.random() < 0.3})
@@ -132,7 +145,7 @@ def gen_case(rng):
     return {'kind': 'block', 'lines': lines, 'expected': expected, 'malformed': malformed,
             'maxtime': spec['maxtime'], 'tol': spec['tol'], 'has_time': spec['time'] is not None,
             'ic_on_default_time': any(e[0] == 'ic' and e[1] == 't' for e in expected) and spec['time'] is None,
-            'case_variants': case_variants,
+            'case_variants': case_variants, 'lag_lookalikes': lag_lookalikes,
             'cseed': rng.getrandbits(30), 'names': G.all_value_names(spec) + [d['name'] for d in spec['decos']]}
 
 
@@ -154,7 +167,8 @@ class C14(object):
     required_counters = ('block.judged', 'lines.judged', 'hostile_variant.judged', 'malformed.judged', 'bad_run_parameter.judged', 'reused_parser.judged',
                          'block.judged.with_initial_condition_on_default_time_axis',
                          'block.judged.with_names_differing_from_reserved_ones_by_case', 'block.judged.with_indented_comment_marker',
-                         'model_desc.judged')
+                         'model_desc.judged',
+                         'block.judged.with_expressions_that_look_like_lag_spellings')
 
     def n_cases(self, tier):
         return 300 if tier == 'quick' else 20000
@@ -216,6 +230,8 @@ class C14(object):
             rec.count('block.judged.with_initial_condition_on_default_time_axis')
         if case.get('case_variants'):
             rec.count('block.judged.with_names_differing_from_reserved_ones_by_case')
+        if case.get('lag_lookalikes'):
+            rec.count('block.judged.with_expressions_that_look_like_lag_spellings')
         if any(ln['kind'] == 'marker' and ln['text'] != ln['text'].lstrip() and ln['text'].lstrip().startswith('#') for ln in case['lines']):
             rec.count('block.judged.with_indented_comment_marker')
         # a parser object that has already read another block (with an exogenous section and its own time variable)
